@@ -13,7 +13,7 @@
    "no flush" and every surviving database is empty, or it is the mark of a flush completed at or
    before k and every surviving database holds exactly its contents at that flush (databases
    absent at that flush are empty). *)
-From Coq Require Import NArith List.
+From Coq Require Import NArith List Permutation.
 From LV Require Import lib.Bytes model.CrashBase model.SyncedPool model.Flagged
   proofs.CrashBaseProofs proofs.SyncedPoolProofs proofs.FlaggedProofs.
 Import ListNotations.
@@ -45,6 +45,12 @@ Theorem C25_check_ok_none : forall fk l,
   check_synced fk l = COk None -> forall n c, In (n, c) l -> dget fk c = None.
 Proof. exact check_ok_none. Qed.
 
+(* ... and therefore an OK verdict does not depend on the order in which the Go map of surviving
+   databases is visited (only the kind of error may). *)
+Theorem C25_check_order_independent : forall fk l1 l2 x,
+  Permutation l1 l2 -> check_synced fk l1 = COk x -> check_synced fk l2 = COk x.
+Proof. exact check_synced_perm. Qed.
+
 (* non-vacuity: a history with two flushes, a queued drop and crash points of every kind *)
 Definition C25_ex_fk : bytes := [255].
 Definition C25_ex_h : list hop :=
@@ -74,3 +80,4 @@ Print Assumptions C25_pool_crash_consistent.
 Print Assumptions C25_flagged_crash_consistent.
 Print Assumptions C25_check_ok_some.
 Print Assumptions C25_check_ok_none.
+Print Assumptions C25_check_order_independent.
